@@ -66,3 +66,12 @@ for _p in ("C01", "C02", "C04", "C05", "C11", "C12"):
                      units=[Unit("exprfuzz", "harness/exprfuzz.cpp", cfg="p17", extra_src=["exprfuzz/pinned.cpp"] + _EF_QUICK, max_size=90,
                                  quick=(40, 600000), thorough=(600, 30000000))],
                      assumptions=_EF_ASSUME)
+
+_DS_ASSUME = [
+    "L1: detsched explores sequentially-consistent interleavings of atomic operations only; memory-order-only weakenings are invisible",
+    "schedules are generated (preemption list / random walk / PCT), not enumerated",
+]
+PROPS["C15"] = dict(level="exploration",
+    units=[Unit("c15_mutex", "harness/c15_mutex.cpp", cfg="d17", max_size=120, pin=True, shards=8,
+                quick=(30, 400000), thorough=(480, 20000000))],
+    assumptions=_DS_ASSUME)
